@@ -12,7 +12,7 @@ import harness as H
 BUILDS = ["default", "raw", "sync", "both"]
 
 
-def _trace(binary, sd, a, b, tier, timeout=600):
+def _trace(binary, sd, a, b, tier, timeout=240):
     cmd = [binary, "trace", "--seed", str(sd), "--from", str(a), "--to", str(b), "--tier", tier]
     try:
         r = subprocess.run(cmd, capture_output=True, text=True, timeout=timeout)
@@ -110,12 +110,25 @@ def run(tier):
     chunk = max(1, min(1000, runs // (H.WORKERS)))
     ranges = [(a, min(a + chunk, runs)) for a in range(0, runs, chunk)]
     jobs = [(b, a, e) for (a, e) in ranges for b in BUILDS]
+    # a build that deadlocks or spins stalls *every* chunk: two stalled chunks are a verdict, the rest is skipped
+    stalled_count = {b: 0 for b in BUILDS}
+
+    def one(j):
+        if stalled_count[j[0]] >= 2:
+            return None, "skipped"
+        res = _trace(H.sim_bin(j[0]), sd, j[1], j[2], tier)
+        if res[1] is not None:
+            stalled_count[j[0]] += 1
+        return res
+
     with ThreadPoolExecutor(max_workers=H.WORKERS) as ex:
-        results = list(ex.map(lambda j: _trace(H.sim_bin(j[0]), sd, j[1], j[2], tier), jobs))
+        results = list(ex.map(one, jobs))
     by_build = {b: {} for b in BUILDS}
     ops_total = {b: 0 for b in BUILDS}
     stalled = []
     for (b, a, e), (res, err) in zip(jobs, results):
+        if err == "skipped":
+            continue
         if err:
             stalled.append((b, a, e, err))
             continue
@@ -128,7 +141,11 @@ def run(tier):
                 raise H.HarnessError(f"binary for build {b} reports features {summary['features']}")
     violations = []
     # a build that does not terminate / dies where the others finish is a disagreement too
+    seen_stalled = set()
     for b, a, e, err in stalled:
+        if b in seen_stalled:
+            continue
+        seen_stalled.add(b)
         violations.append(
             {
                 "type": "violation",
